@@ -976,9 +976,13 @@ class LayoutEval:
             out.append(Leaf(path=_strip(path) + ("<window>",), kind="window", offset=pos, width=size, base="FixedSized", chain=[], strides=list(strides), inner=inner_end - pos))
             return pos + size
         if k == "seek":
-            if c.whence not in (0, None):
-                raise AnalysisError(f"{name}: Seek with whence={c.whence} not modelled")
+            if c.whence not in (0, 1, None):
+                ex = UnmodelledConstruct("Seek", name)
+                ex.from_end = c.whence == 2
+                raise ex
             to = self._rebase(c.to, ctx, values, name)
+            if c.whence == 1:
+                to = pos + to  # relative to the current position: bytes stepped over without being read
             out.append(Leaf(path=_strip(path), kind="seek", offset=pos, width=to - pos, base="Seek", chain=chain, strides=list(strides), target=to, target_expr=c.to))
             values[name] = to
             return to
